@@ -66,6 +66,31 @@ func init() {
 		}
 		x.DefStrings("reapCalls", reapCalls)
 
+		x.Comment("(*Store).reapInternal: WHAT is handed to the pre-consolidation checker - each `inputs.Add(arg)` as `arg @ <range expression of the innermost enclosing for, or - >`, in source order")
+		var reapInputs []string
+		if fd := x.Func("snapshot", "Store", "reapInternal"); fd != nil {
+			var walk func(n ast.Node, rng string)
+			walk = func(n ast.Node, rng string) {
+				ast.Inspect(n, func(m ast.Node) bool {
+					if m == n {
+						return true
+					}
+					switch t := m.(type) {
+					case *ast.RangeStmt:
+						walk(t.Body, x.Src(t.X))
+						return false
+					case *ast.CallExpr:
+						if x.Src(t.Fun) == "inputs.Add" && len(t.Args) == 1 {
+							reapInputs = append(reapInputs, x.Src(t.Args[0])+" @ "+rng)
+						}
+					}
+					return true
+				})
+			}
+			walk(fd.Body, "-")
+		}
+		x.DefStrings("reapInputs", reapInputs)
+
 		x.Comment("(*Store).EnsureVerify and ensureVerified")
 		var evCalls, onceCalls []string
 		if fd := x.Func("snapshot", "Store", "EnsureVerify"); fd != nil {
